@@ -497,6 +497,89 @@ func unitC11scripted(e common.Env, p *common.Part) {
 				}
 			}
 		}
+		// the context ends while the protocol instance of node 1 is being initialised (Init is parked until the call has returned),
+		// then the natural retry with every node: every call returns, nothing panics
+		for mi, mode := range []string{"loud", "barrier", "silent"} {
+			for _, op := range []string{"keygen", "sign"} {
+				for rep := 0; rep < e.Pick(2, 10); rep++ {
+					cs := fmt.Sprintf("%s %s: context ends during the protocol instance's Init at node 1, then a retry #%d", mode, op, rep)
+					p.Begin(cs)
+					ids := []uint16{1, 2, 3}
+					entered, release := make(chan struct{}), make(chan struct{})
+					var once sync.Once
+					script := backend.Script{Rounds: []uint8{1}, Bcast: true, InitHook: func(node uint16) {
+						if node != 1 {
+							return
+						}
+						first := false
+						once.Do(func() { first = true })
+						if first {
+							close(entered)
+							<-release
+						}
+					}}
+					c := newRCluster(cluster.Config{Map: identityMap(ids...), Barrier: mode == "barrier", Silent: mode == "silent", Threshold: 2, Script: script}, e.Rng("c11init", mi, rep), simnet.Uniform)
+					if mode == "silent" {
+						c.SetPick(tss.DkgTopicName, ids)
+						c.SetPick("init-topic", ids)
+					}
+					call := func(ctx context.Context) chan error {
+						out := make(chan error, len(ids))
+						for _, u := range ids {
+							u := u
+							c.Schemes[u].SetStoredData([]byte("share-of-x"))
+							go func() {
+								var err error
+								if op == "keygen" {
+									_, err = c.Schemes[u].KeyGen(ctx, 3, 2)
+								} else {
+									_, err = c.Schemes[u].Sign(ctx, []byte("digest-0123456789abcdef0123456789"), "init-topic")
+								}
+								out <- err
+							}()
+						}
+						return out
+					}
+					collect := func(out chan error, d time.Duration) bool {
+						deadline := time.After(d)
+						for range ids {
+							select {
+							case <-out:
+							case <-deadline:
+								return false
+							}
+						}
+						return true
+					}
+					ctx1, cancel1 := context.WithTimeout(context.Background(), 3*time.Second)
+					out1 := call(ctx1)
+					parked := false
+					select {
+					case <-entered:
+						parked = true
+					case <-time.After(2 * time.Second):
+					}
+					cancel1()
+					ok := collect(out1, 10*time.Second)
+					close(release)
+					if !ok {
+						p.Violate("hang/context-ended-during-init", cs+": a call had not returned 10 s after its context was cancelled", nil)
+					} else {
+						time.Sleep(time.Duration(1+rep%4) * time.Millisecond)
+						ctx2, cancel2 := context.WithTimeout(context.Background(), 2*time.Second)
+						if !collect(call(ctx2), 12*time.Second) {
+							p.Violate("hang/retry-after-context-ended-during-init", cs+": the retry had not returned 10 s after its context ended", nil)
+						}
+						cancel2()
+					}
+					c.Stop()
+					p.Case(cs, parked)
+					if parked {
+						p.Count("contexts_ended_during_init", 1)
+					}
+				}
+			}
+		}
 	}
 }
 
